@@ -49,3 +49,18 @@ Theorem c12_seq_never_stale : forall stale has_rt refresh_ok valid_old valid_new
   (o = SeqUnauth /\ cleared = true).
 Proof. exact seq_never_stale. Qed.
 Print Assumptions c12_seq_never_stale.
+
+(* "After a refresh ... later requests carry the new tokens", over histories: against a provider whose
+   refresh tokens are single-use, a chain of refreshes of ANY length never presents a consumed token
+   and ends with the tokens of the last generation - whichever of the responses carry an ID token
+   (Model/RefreshChain.v transcribes what redeemRefreshToken keeps of a response). *)
+From V.Model Require Import RefreshChain.
+From V.Proofs Require Import RefreshChainProofs.
+
+Theorem c12_refresh_chain : forall flags cur s,
+  t_refresh s = cur ->
+  exists s', chain_run (cur, s) flags = Some (cur + length flags, s') /\
+             t_refresh s' = cur + length flags /\
+             (flags <> [] -> t_access s' = cur + length flags).
+Proof. exact chain_never_presents_consumed_token. Qed.
+Print Assumptions c12_refresh_chain.
